@@ -27,6 +27,11 @@ type FuncSpec struct {
 	// Alias also analyses every way in which pointer parameters of identical
 	// pointee type may alias each other.
 	Alias bool
+	// Partition, if non-nil, fixes the aliasing instead: Partition[i] is the
+	// representative parameter of pointer parameter i's alias class.
+	Partition map[int]int
+	// Arg overrides the abstract value of a non-pointer parameter.
+	Arg func(param int) Value
 }
 
 // FuncResult is the outcome of analysing one entry point.
@@ -38,7 +43,9 @@ type FuncResult struct {
 	Paths        int
 	ErrPaths     int // paths returning a non-nil error (outputs not part of the post-condition)
 	AliasConfigs int
-	Written      []int // parameters whose pointee is written when no parameters alias
+	Written      []int       // parameters whose pointee is written when no parameters alias
+	Read         []int       // parameters whose pointee is read (first alias configuration)
+	ParamObj     map[int]int // object id -> parameter index (first alias configuration)
 	Obligations  []*Obligation
 	Undecided    []string
 	Inlined      map[string]int
@@ -169,7 +176,18 @@ func (a *Analyzer) AnalyzeFunc(fn *ssa.Function, spec FuncSpec, record bool) (re
 		errIdx = rs.Len() - 1
 	}
 
-	for _, part := range partitions(ptrParams, elem, spec.Alias) {
+	parts := partitions(ptrParams, elem, spec.Alias)
+	if spec.Partition != nil {
+		fixed := make([]int, len(ptrParams))
+		for k, i := range ptrParams {
+			fixed[k] = i
+			if rep, ok := spec.Partition[i]; ok {
+				fixed[k] = rep
+			}
+		}
+		parts = [][]int{fixed}
+	}
+	for _, part := range parts {
 		res.AliasConfigs++
 		mem := newMemory(a.base)
 		block := map[int]int{}
@@ -188,7 +206,21 @@ func (a *Analyzer) AnalyzeFunc(fn *ssa.Function, spec FuncSpec, record bool) (re
 		for i, p := range fn.Params {
 			if _, ok := elem[i]; ok {
 				args[i] = &Ptr{Obj: objOf(i)}
+				if res.ParamObj == nil {
+					res.ParamObj = map[int]int{}
+				}
+				if res.AliasConfigs == 1 {
+					if _, dup := res.ParamObj[objOf(i)]; !dup {
+						res.ParamObj[objOf(i)] = i
+					}
+				}
 				continue
+			}
+			if spec.Arg != nil {
+				if v := spec.Arg(i); v != nil {
+					args[i] = v
+					continue
+				}
 			}
 			if ii, ok := intInfoOf(p.Type(), a.sizes); ok {
 				args[i] = mkInt(ii.rng())
@@ -220,11 +252,15 @@ func (a *Analyzer) AnalyzeFunc(fn *ssa.Function, spec FuncSpec, record bool) (re
 					if first && r.mem.written[objOf(i)] && !containsInt(res.Written, i) {
 						res.Written = append(res.Written, i)
 					}
+					if first && r.mem.read[objOf(i)] && !containsInt(res.Read, i) {
+						res.Read = append(res.Read, i)
+					}
 				}
 			}
 		}
 	}
 	sort.Ints(res.Written)
+	sort.Ints(res.Read)
 	return res
 }
 
